@@ -44,6 +44,9 @@ class TxModels(Models):
             self.instantiators[cls] = self.wrap_int
         for cls in (marshal.Signature, marshal.ObjectPath):
             self.instantiators[cls] = self.wrap_str
+        from twisted.python import log
+        self.register(log.msg, lambda I, a, k: VNone())
+        self.register(log.err, lambda I, a, k: VNone())
 
     def wrap_int(self, I, a, k):
         v = a[0]
